@@ -359,7 +359,7 @@ func writeStdlib(dir string) error {
 		}
 	}
 	sb.WriteString("]\n\n")
-	sb.WriteString("/-- unicode.ToUpper as (lo, hi, delta) runs: r in [lo,hi] maps to r + delta (sorted) -/\ndef toUpperRuns : List (Nat × Nat × Int) := [")
+	sb.WriteString("/-- unicode.ToUpper as (lo, hi, tlo) runs: r in [lo,hi] maps to tlo + (r - lo) (sorted by lo) -/\ndef toUpperRuns : List (Nat × Nat × Nat) := [")
 	first = true
 	runLo, runHi, runD := -1, -1, 0
 	flush := func() {
@@ -368,7 +368,7 @@ func writeStdlib(dir string) error {
 				sb.WriteString(", ")
 			}
 			first = false
-			fmt.Fprintf(&sb, "(0x%X, 0x%X, %d)", runLo, runHi, runD)
+			fmt.Fprintf(&sb, "(0x%X, 0x%X, 0x%X)", runLo, runHi, runLo+runD)
 		}
 	}
 	for r := 0; r < 0x110000; r++ {
